@@ -51,6 +51,8 @@ if confirmed:
     finally:
         sh("git -C /repo checkout -- . && git -C /repo clean -fdq")
         sh("python3 /verif/tools/translate.py /repo /verif/coq/gen")
+        for c in checks:   # the evidence files are rewritten by every run: restore them from the unchanged tree
+            sh("./check %s" % c, "/verif")
 dst = "/verif/seeded/%s-%s" % (pid, out_k)
 os.makedirs(dst, exist_ok=True)
 shutil.copy(src + "/patch.diff", dst + "/patch.diff")
